@@ -1,13 +1,19 @@
 #!/bin/sh
 # usage: tools/try_mutant.sh <patch.diff> <PROPERTY-ID> [scale]
-# Applies a seeded change to /repo, runs the property's quick check, and restores /repo straight afterwards.
+# Applies a seeded change to /repo, builds a SEPARATE monitor binary (so that concurrent sweeps using
+# bin/vmon are not disturbed), restores /repo straight after the build, and runs the property's quick check.
 patch="$1"; id="$2"; scale="${3:-1}"
 cd /repo || exit 2
 if ! git apply --check "$patch" 2>/dev/null; then echo "PATCH DOES NOT APPLY: $patch"; exit 3; fi
 git apply "$patch"
+cd /verif/vmon
+export GOFLAGS=-mod=mod GOPROXY=off GOSUMDB=off GOTOOLCHAIN=local
+go build -tags verif -o ../bin/vmon-mut . ; brc=$?
+cd /repo && git checkout -- .
+if [ $brc -ne 0 ]; then echo "$(basename $(dirname $patch)) vs $id: BUILD FAILED"; exit 4; fi
 cd /verif
-VMON_SCALE="$scale" VERIF_DIR=/verif/work/mut ./check "$id" quick > /verif/work/mut-$id.log 2>&1
+mkdir -p work/mut/work work/mut/evidence; cp known_findings.json work/mut/
+VMON_SCALE="$scale" VERIF_DIR=/verif/work/mut ./bin/vmon-mut check "$id" quick > /verif/work/mut-$id.log 2>&1
 rc=$?
-cd /repo && git checkout -- . 
 echo "$(basename $(dirname $patch)) vs $id: exit $rc; $(grep -c '^VIOLATION' /verif/work/mut-$id.log) violation lines; first: $(grep '^violated' /verif/work/mut-$id.log | head -1 | cut -c1-260)"
 exit $rc
